@@ -411,7 +411,7 @@ func runFacts(args []string) {
 	fs := flag.NewFlagSet("facts", flag.ExitOnError)
 	which := fs.String("fact", "", "F1..F7")
 	fs.Parse(args)
-	table := map[string]func(*token.FileSet){"F1": factF1, "F2": factF2, "F3": factF3, "F4": factF4, "F5": factF5, "F6": factF6, "F7": factF7, "F8": factF8, "F9": factF9, "F10": factF10, "F11": factF11}
+	table := map[string]func(*token.FileSet){"F1": factF1, "F2": factF2, "F3": factF3, "F4": factF4, "F5": factF5, "F6": factF6, "F7": factF7, "F8": factF8, "F9": factF9, "F10": factF10, "F11": factF11, "F12": factF12}
 	fn, ok := table[*which]
 	if !ok {
 		fmt.Println("FACT", *which, "unknown")
@@ -641,4 +641,151 @@ func factF11(fset *token.FileSet) {
 		}
 		return true
 	})
+}
+
+// F12: the logger is set up before any goroutine exists. `logger.GetLogger` tests `globalLogger == nil`
+// outside its mutex (and does not test again inside), so two first calls at once would race; every call
+// in the server program must therefore come from a package-level variable initialiser (run one after the
+// other by the runtime before main) or from func main of cmds/coredhcp before `server.Start`. In
+// logger.go itself: the only assignment to globalLogger is inside GetLogger, after `getLoggerMutex.Lock()`,
+// and the package starts no goroutine.
+func factF12(fset *token.FileSet) {
+	lf := parseFile(fset, "logger/logger.go")
+	gl := findFunc(lf, "", "GetLogger")
+	if gl == nil {
+		fail("logger.go: GetLogger not found")
+	}
+	ast.Inspect(lf, func(x ast.Node) bool {
+		if g, ok := x.(*ast.GoStmt); ok {
+			fail("logger.go:%d: the logger package starts a goroutine", fset.Position(g.Pos()).Line)
+		}
+		if as, ok := x.(*ast.AssignStmt); ok {
+			for _, l := range as.Lhs {
+				if id, ok := l.(*ast.Ident); ok && id.Name == "globalLogger" {
+					if as.Pos() < gl.Pos() || as.End() > gl.End() {
+						fail("logger.go:%d: globalLogger is assigned outside GetLogger", fset.Position(as.Pos()).Line)
+					}
+					locked := false
+					for _, st := range gl.Body.List {
+						ast.Inspect(st, func(y ast.Node) bool {
+							if c, ok := y.(*ast.CallExpr); ok && exprStr(fset, c.Fun) == "getLoggerMutex.Lock" && c.Pos() < as.Pos() {
+								locked = true
+							}
+							return true
+						})
+					}
+					if !locked {
+						fail("logger.go:%d: globalLogger is assigned without getLoggerMutex", fset.Position(as.Pos()).Line)
+					}
+				}
+			}
+		}
+		return true
+	})
+	calls := 0
+	filepath.Walk(repoRoot, func(p string, info os.FileInfo, err error) error {
+		if err != nil {
+			return nil
+		}
+		if info.IsDir() {
+			if b := info.Name(); b == ".git" || b == "integ" || b == "example" || b == "client" || b == "coredhcp-generator" {
+				return filepath.SkipDir
+			}
+			return nil
+		}
+		if !strings.HasSuffix(p, ".go") || strings.HasSuffix(p, "_test.go") || strings.HasSuffix(p, "logger/logger.go") {
+			return nil
+		}
+		af, perr := parser.ParseFile(fset, p, nil, 0)
+		if perr != nil {
+			return nil
+		}
+		// the local name of the logger package in this file
+		lname := ""
+		for _, im := range af.Imports {
+			if strings.Trim(im.Path.Value, "\"") == "github.com/coredhcp/coredhcp/logger" {
+				lname = "logger"
+				if im.Name != nil {
+					lname = im.Name.Name
+				}
+			}
+		}
+		if lname == "" {
+			return nil
+		}
+		if lname == "." || lname == "_" {
+			fail("%s: the logger package is imported as %q", p, lname)
+		}
+		rel, _ := filepath.Rel(repoRoot, p)
+		for _, d := range af.Decls {
+			switch d := d.(type) {
+			case *ast.GenDecl:
+				// package-level var initialisers: allowed, but not inside a function literal (that would run later)
+				ast.Inspect(d, func(x ast.Node) bool {
+					if fl, ok := x.(*ast.FuncLit); ok {
+						ast.Inspect(fl, func(y ast.Node) bool {
+							if c, ok := y.(*ast.CallExpr); ok && exprStr(fset, c.Fun) == lname+".GetLogger" {
+								fail("%s:%d: GetLogger is called inside a function literal", rel, fset.Position(c.Pos()).Line)
+							}
+							return true
+						})
+						return false
+					}
+					if c, ok := x.(*ast.CallExpr); ok && exprStr(fset, c.Fun) == lname+".GetLogger" {
+						calls++
+					}
+					// the function value itself must not escape (`f := logger.GetLogger`)
+					return true
+				})
+			case *ast.FuncDecl:
+				isMain := rel == "cmds/coredhcp/main.go" && d.Recv == nil && d.Name.Name == "main"
+				var startPos token.Pos
+				if d.Body != nil {
+					ast.Inspect(d.Body, func(x ast.Node) bool {
+						if c, ok := x.(*ast.CallExpr); ok && exprStr(fset, c.Fun) == "server.Start" && startPos == 0 {
+							startPos = c.Pos()
+						}
+						return true
+					})
+					inLit := 0
+					var walk func(n ast.Node)
+					walk = func(n ast.Node) {
+						ast.Inspect(n, func(x ast.Node) bool {
+							switch x := x.(type) {
+							case *ast.FuncLit:
+								inLit++
+								walk(x.Body)
+								inLit--
+								return false
+							case *ast.GoStmt:
+								if isMain && (startPos == 0 || x.Pos() < startPos) {
+									fail("%s:%d: main starts a goroutine before server.Start", rel, fset.Position(x.Pos()).Line)
+								}
+							case *ast.SelectorExpr:
+								if exprStr(fset, x) == lname+".GetLogger" {
+									pos := fset.Position(x.Pos())
+									if !isMain {
+										fail("%s:%d: GetLogger is used in function %s (only package-level initialisers and main may)", rel, pos.Line, d.Name.Name)
+									}
+									if inLit > 0 {
+										fail("%s:%d: GetLogger is used inside a function literal of main", rel, pos.Line)
+									}
+									if startPos != 0 && x.Pos() > startPos {
+										fail("%s:%d: GetLogger is used after server.Start", rel, pos.Line)
+									}
+									calls++
+								}
+							}
+							return true
+						})
+					}
+					walk(d.Body)
+				}
+			}
+		}
+		return nil
+	})
+	if calls < 15 {
+		fail("only %d GetLogger call sites found", calls)
+	}
 }
